@@ -290,6 +290,11 @@ func (e *Env) ident(name string) TVal {
 					return TVal{term: app("+", e.cur.locals[a], "1"), ty: intTy()}
 				}
 			}
+			if _, isLocal := e.cur.names[name]; name == "ranged" && !isLocal && e.loop != nil && e.loop.ranged != nil {
+				// the collection the range loop walks
+				rv := e.loop.ranged
+				return TVal{term: g.term(e.cur, rv), ty: e.goTy(rv.Type())}
+			}
 			if strings.HasPrefix(name, "iter") && len(name) > 4 {
 				// iterK: iteration count of loop K (for invariants of nested loops)
 				if k, err := strconv.Atoi(name[4:]); err == nil {
